@@ -80,12 +80,12 @@ pub fn exec_line(line: &str) -> String {
 /// VH_OP_TIMEOUT seconds (default 300) is reported as "TIMEOUT", its worker is abandoned (it cannot be killed; the process
 /// exits at the end of main regardless) and a fresh worker continues with the next op.
 fn exec_all(lines: &[String]) -> Vec<String> {
-    // VH_WARMUP: an op executed alone before anything else in this process (used by the cross-process comparison of C15 to
-    // give the two processes different histories: one starts with Falcon-512 key generation, the other with Falcon-1024)
-    if let Ok(w) = std::env::var("VH_WARMUP") {
-        if !w.trim().is_empty() {
-            let _ = exec_line(&w);
-        }
+    // VH_WARMUP: an op executed alone before anything else in this process and again at the start of every worker thread
+    // (used by the cross-process comparison of C15 to give the two processes - and each of their threads - different
+    // histories: one starts with Falcon-512 key generation, the other with Falcon-1024)
+    let warm: Option<String> = std::env::var("VH_WARMUP").ok().filter(|w| !w.trim().is_empty());
+    if let Some(w) = &warm {
+        let _ = exec_line(w);
     }
     let secs: u64 = std::env::var("VH_OP_TIMEOUT").ok().and_then(|s| s.parse().ok()).unwrap_or(300);
     // VH_THREADS=1: everything on one worker, in order (replays)
@@ -103,6 +103,7 @@ fn exec_all(lines: &[String]) -> Vec<String> {
     std::thread::scope(|s| {
         for (ci, os) in out.chunks_mut(chunk).enumerate() {
             let shared = shared.clone();
+            let warm = warm.clone();
             s.spawn(move || {
                 let base = ci * chunk;
                 let len = os.len();
@@ -111,7 +112,11 @@ fn exec_all(lines: &[String]) -> Vec<String> {
                     let (tx, rx) = std::sync::mpsc::channel::<(usize, String)>();
                     let sh = shared.clone();
                     let (from, to) = (base + pos, base + len);
+                    let warm = warm.clone();
                     let _ = std::thread::Builder::new().stack_size(256 << 20).spawn(move || {
+                        if let Some(w) = &warm {
+                            let _ = exec_line(w);
+                        }
                         for k in from..to {
                             let o = exec_line(&sh[k]);
                             if tx.send((k, o)).is_err() {
@@ -228,7 +233,12 @@ fn run_and_judge(prop: &str, tier: &str, seed: u64, lines: &[String], fixed: &[O
         writeln!(fo, "{l}").unwrap();
         writeln!(fi, "{o}").unwrap();
         let tok: Vec<&str> = l.split_whitespace().collect();
-        match oracle(prop, &tok, o) {
+        // the oracles re-run library code (other threads, other orders): a panic in there is the library's
+        let verdict = panic::catch_unwind(panic::AssertUnwindSafe(|| oracle(prop, &tok, o))).unwrap_or_else(|e| {
+            let m = e.downcast_ref::<String>().cloned().or_else(|| e.downcast_ref::<&str>().map(|s| s.to_string())).unwrap_or_default();
+            Verdict::Fail(format!("panic while the property's predicate re-ran the library on this input: {m}"))
+        });
+        match verdict {
             Verdict::NotApplicable => writeln!(fr, "N").unwrap(),
             Verdict::Pass => {
                 napp += 1;
@@ -296,6 +306,10 @@ fn main() {
             let lines: Vec<String> = cases.iter().map(|c| c.op.clone()).collect();
             let fixed: Vec<Option<String>> = cases.iter().map(|c| c.fixed_out.clone()).collect();
             run_and_judge(prop, tier, seed, &lines, &fixed, ncorpus, outdir);
+        }
+        "rejsearch" => {
+            // vh rejsearch <start> <count> <outfile>
+            seeds::rejsearch(args[2].parse().unwrap(), args[3].parse().unwrap(), &args[4]);
         }
         "seedsearch" => {
             // vh seedsearch <N> <start> <count> <outfile>
